@@ -3,7 +3,7 @@
    abstract events of both sides (harness/c13.go) and the 11 table sizes read on each side. *)
 From Coq Require Import ZArith NArith List Bool.
 From GoCoap Require Import Base.Cases Base.Bytes Conn.MutexMap Conn.Spec.
-From GoCoap Require Conn.Sweep.
+From GoCoap Require Conn.Sweep Conn.MidTick.
 From GoCoap Require Export Conn.Model.
 Import ListNotations.
 Open Scope Z_scope.
@@ -15,9 +15,24 @@ Inductive stepobs := St (kind : Z) (evs : list (bool * cev)) (szA szB : list Z) 
 (* Sweep: one pkg/cache.Cache filled with [ents] = (key, deadline in ms, None = zero time), ONE
    CheckExpirations(now); [left] = keys found afterwards (ascending), [fired] = keys whose onExpire
    ran (ascending), [bad] = panics *)
+(* Locks: a script of Lock / TryLock / Unlock calls of [n] goroutines on one real udp/client.MutexMap.
+   Per command: the atomic sections it consists of ([acts], for the model), then what was read:
+   [tab] = (key, reference count) ascending, [thr] = (status, key) per goroutine *)
+Inductive lstep := LS (acts : list (nat * Z * bool)) (tab thr : list (Z * Z)).
+Module MT := GoCoap.Conn.MidTick.
+(* MidRace: exchanges with message-ID continuations on one real udp/client.Conn and housekeeping
+   ticks; one tick is interrupted between Range's fetch of its i-th entry and the callback
+   (pkg/sync VerifYieldHook) and [mid] happens there.  MObs: the message IDs found in the table *)
+Inductive mphase :=
+| MEnv (o : MT.envop)
+| MTick (now : Z)
+| MRace (now : Z) (i : nat) (mid : list MT.envop)
+| MObs (lft : list Z).
 Inductive case :=
 | Hist (le hang nbad : Z) (steps : list stepobs)
-| Sweep (now : Z) (ents : list (Z * option Z)) (left fired : list Z) (bad : Z).
+| Sweep (now : Z) (ents : list (Z * option Z)) (left fired : list Z) (bad : Z)
+| Locks (n : nat) (bad : Z) (steps : list lstep)
+| MidRace (maxrt ack : Z) (bad : Z) (phases : list mphase).
 
 (* transmission parameters the harness configures (harness/c13.go: c13AckMs, c13MaxRt, c13NStart) *)
 Definition rcfg : R.cfg := {| R.ack_ms := 140000; R.max_rt := 2; R.nstart := 16 |}.
@@ -46,11 +61,94 @@ Definition sweep_model (now : Z) (ents : list (Z * option Z)) : list Z * list Z 
   let r := S.check_expirations now (map fst ents) m in
   (S.keys (fst r), map S.e_ptr (snd r)).
 
+(* ---- Locks ---- *)
+Fixpoint zinsert (x : Z * Z) (l : list (Z * Z)) : list (Z * Z) :=
+  match l with [] => [x] | y :: r => if fst x <=? fst y then x :: l else y :: zinsert x r end.
+Definition zsort (l : list (Z * Z)) : list (Z * Z) := fold_right zinsert [] l.
+Definition pairs_eqb (x y : list (Z * Z)) : bool :=
+  (length x =? length y)%nat && forallb (fun '((a, b), (c, d)) => (a =? c) && (b =? d)) (combine x y).
+Definition mm_tab (s : mmap) : list (Z * Z) := zsort (map (fun ke => (fst ke, cnt (heap s (snd ke)))) (tab s)).
+Definition mm_thr (s : mmap) : list (Z * Z) :=
+  map (fun x => match x with
+                | Out => (0, 0) | Waiting k _ => (1, k) | Holding k _ => (2, k)
+                | Releasing _ => (3, 0) | Panicked => (4, 0)
+                end) (pcs s).
+Fixpoint agrees_locks (s : mmap) (l : list lstep) : bool :=
+  match l with
+  | [] => true
+  | LS acts tb th :: r =>
+      let s' := exec2 s acts in
+      pairs_eqb (mm_tab s') tb && pairs_eqb (mm_thr s') th && agrees_locks s' r
+  end.
+Fixpoint locks_class (l : list lstep) : N :=
+  match l with
+  | [] => 0%N
+  | LS _ tb th :: r => match locks_step_class tb th with 0%N => locks_class r | c => c end
+  end.
+
+(* ---- MidRace ---- *)
+(* Go's map order is not observed: the interrupted tick is run for every visiting order of the keys
+   the table holds; the candidates that do not show the message IDs observed are dropped *)
+Fixpoint insert_all (x : Z) (l : list Z) : list (list Z) :=
+  match l with [] => [[x]] | y :: r => (x :: l) :: map (cons y) (insert_all x r) end.
+Fixpoint perms (l : list Z) : list (list Z) :=
+  match l with [] => [[]] | x :: r => flat_map (insert_all x) (perms r) end.
+(* Go: "if a map entry is created during iteration, that entry may be produced during the iteration
+   or may be skipped": after [mid] the visits of the message IDs that [mid] registered are optional
+   (each at most once), all other visits happen (a key that is gone when its turn comes is a no-op) *)
+Definition started_in (mid : list MT.envop) : list Z :=
+  fold_right (fun o acc => match o with
+                           | MT.Start k _ => if existsb (Z.eqb k) acc then acc else k :: acc
+                           | MT.End _ => acc
+                           end) [] mid.
+Fixpoint subsets (l : list Z) : list (list Z) :=
+  match l with [] => [[]] | x :: r => let s := subsets r in s ++ map (cons x) s end.
+Definition visit0 (k : Z) : MT.item := MT.Visit k [].
+Definition race_scheds (ord : list Z) (i : nat) (mid : list MT.envop) : list (list MT.item) :=
+  match skipn i ord with
+  | [] => [map visit0 ord ++ map MT.Env mid]          (* fewer entries than i+1: [mid] happens after the pass *)
+  | cur :: post =>
+      let ns := started_in mid in
+      let post' := filter (fun k => negb (existsb (Z.eqb k) ns)) post in
+      map (fun extra => map visit0 (firstn i ord) ++ MT.Visit cur mid :: map visit0 post' ++ map visit0 extra)
+          (subsets ns)
+  end.
+Fixpoint zins (x : Z) (l : list Z) : list Z :=
+  match l with [] => [x] | y :: r => if x <=? y then x :: l else y :: zins x r end.
+Definition zsort1 (l : list Z) : list Z := fold_right zins [] l.
+Definition mphase_step (maxrt ack : Z) (cands : list MT.tbl) (p : mphase) : list MT.tbl :=
+  match p with
+  | MEnv o => map (fun m => MT.env_step m o) cands
+  | MTick now => map (fun m => MT.tick (MT.mkC now maxrt ack) (MT.keys m) m) cands
+  | MRace now i mid =>
+      flat_map (fun m => flat_map (fun ord => map (fun sch => MT.run (MT.mkC now maxrt ack) sch m) (race_scheds ord i mid))
+                                  (if (length m <=? 5)%nat then perms (MT.keys m) else [MT.keys m])) cands
+  | MObs lft => filter (fun m => zlist_eqb (zsort1 (MT.keys m)) lft) cands
+  end.
+Definition agrees_mid (maxrt ack : Z) (ph : list mphase) : bool :=
+  match fold_left (mphase_step maxrt ack) ph [[]] with [] => false | _ => true end.
+
+(* what the script did, for the Spec: the exchanges ending inside the interrupted tick end before it
+   completes, the ones starting inside it count as started after it *)
+Definition xev_of_env (o : MT.envop) : xev :=
+  match o with MT.Start k e => XStart k (MT.e_dl e) | MT.End k => XEnd k end.
+Definition is_start (o : MT.envop) : bool := match o with MT.Start _ _ => true | MT.End _ => false end.
+Definition xevs_of (p : mphase) : list xev :=
+  match p with
+  | MEnv o => [xev_of_env o]
+  | MTick now => [XTick now]
+  | MRace now _ mid =>
+      map xev_of_env (filter (fun o => negb (is_start o)) mid) ++ [XTick now] ++ map xev_of_env (filter is_start mid)
+  | MObs lft => [XObs lft]
+  end.
+
 Definition agrees (c : case) : bool :=
   match c with
   | Hist le hang nbad steps => (hang =? 0) && (nbad =? 0) && agrees_steps (init 0 le, init 0 0) steps
   | Sweep now ents lft fired bad =>
       (bad =? 0) && zlist_eqb (fst (sweep_model now ents)) lft && zlist_eqb (snd (sweep_model now ents)) fired
+  | Locks n bad steps => (bad =? 0) && agrees_locks (MutexMap.init n) steps
+  | MidRace maxrt ack bad ph => (bad =? 0) && agrees_mid maxrt ack ph
   end.
 
 (* property predicate on the OBSERVED sizes (Spec only).  classes: 1 token continuation left,
@@ -78,12 +176,14 @@ Definition has_closing (l : list stepobs) : bool := existsb (fun '(St k _ _ _ _)
 Definition pclass (c : case) : N :=
   match c with
   | Hist _ hang nbad steps =>
-      if negb ((hang =? 0) && (nbad =? 0)) then 9%N
-      else match first_class steps with
-           | 0%N => if has_closing steps then 0%N else 9%N
-           | c => c
-           end
+      (* what the tables read before a hang / an unexpected result show is reported as such *)
+      match first_class steps with
+      | 0%N => if negb ((hang =? 0) && (nbad =? 0)) then 9%N else if has_closing steps then 0%N else 9%N
+      | c => c
+      end
   | Sweep now ents lft _ bad => if negb (bad =? 0) then 9%N else sweep_class now ents lft
+  | Locks _ bad steps => match locks_class steps with 0%N => if negb (bad =? 0) then 9%N else 0%N | c => c end
+  | MidRace _ _ bad ph => match mid_class (flat_map xevs_of ph) with 0%N => if negb (bad =? 0) then 9%N else 0%N | c => c end
   end.
 
 Definition mismatches (cs : list case) : list N := bad_indices (fun c => negb (agrees c)) cs.
